@@ -153,20 +153,20 @@ func (c *Ctx) entryPoints() (*EntryPoints, error) {
 
 // Eff is the shared result of engine E1 for one run.
 type Eff struct {
-	A          *pta.Analysis
-	EP         *EntryPoints
-	ReachAPI   map[*ssa.Function]bool // CG-reachable from EP_api roots (run-time code)
-	ReachCodec map[*ssa.Function]bool
-	ReachEnc   map[*ssa.Function]bool
-	ReachDec   map[*ssa.Function]bool
-	GlobalReach map[*pta.Obj][]string // object -> globals it is reachable from
+	A                                         *pta.Analysis
+	EP                                        *EntryPoints
+	ReachAPI                                  map[*ssa.Function]bool // CG-reachable from EP_api roots (run-time code)
+	ReachCodec                                map[*ssa.Function]bool
+	ReachEnc                                  map[*ssa.Function]bool
+	ReachDec                                  map[*ssa.Function]bool
+	GlobalReach                               map[*pta.Obj][]string // object -> globals it is reachable from
 	ParObj, InpObj, PixSrc, PixDst, FrameInfo *pta.Obj
-	CodecObjs, CodecReach map[*pta.Obj]bool
-	GuardedEdges     map[*callgraph.Edge]string
-	LapsedExceptions []string
-	RecvObj    map[*types.Named]*pta.Obj
-	InpParams  map[*pta.Obj]string
-	recvSeeded map[string]bool
+	CodecObjs, CodecReach                     map[*pta.Obj]bool
+	GuardedEdges                              map[*callgraph.Edge]string
+	LapsedExceptions                          []string
+	RecvObj                                   map[*types.Named]*pta.Obj
+	InpParams                                 map[*pta.Obj]string
+	recvSeeded                                map[string]bool
 }
 
 func isDicomInterface(t types.Type, name string) bool {
